@@ -50,10 +50,18 @@ def main():
             sh(["rsync", "-a", "--exclude", ".git", "--exclude", "build", "--exclude", "__pycache__", "/repo/", dst + "/"])
             ap = sh(["patch", "-p1", "-s", "-d", dst, "-i", os.path.join(d, "patch.diff")])
             meta["patch_applies"] = ap.returncode == 0
-            d0 = sh([PY, os.path.join(d, "demo.py"), "/repo"], timeout=1800)
+            # demos are the sub-agents' own programs; some use unseeded ARPACK start vectors, so the pristine run is repeated
+            # (up to 3 times) when it does not exit 0 at once and all exit codes are recorded
+            p_codes = []
+            for _ in range(3):
+                d0 = sh([PY, os.path.join(d, "demo.py"), "/repo"], timeout=1800)
+                p_codes.append(d0.returncode)
+                if d0.returncode == 0:
+                    break
             d1 = sh([PY, os.path.join(d, "demo.py"), dst], timeout=1800)
             meta["demo_exit_pristine"], meta["demo_exit_changed"] = d0.returncode, d1.returncode
-            ran = [f"demo.py /repo -> {d0.returncode}; demo.py <patched copy> -> {d1.returncode}"]
+            meta["demo_exit_pristine_all_runs"] = p_codes
+            ran = [f"demo.py /repo -> {p_codes}; demo.py <patched copy> -> {d1.returncode}"]
             if suite:
                 jx = os.path.join(td, "junit.xml")
                 sh([PY, "-m", "pytest", "-q", "-p", "no:cacheprovider", "--timeout=900", "--continue-on-collection-errors", "-n", "8",
